@@ -119,3 +119,139 @@ def run_correspondence(rep, name, cases, limit=5):
     rep.extra.setdefault("correspondence", {})[name] = {"requests": len(cases), "disagreements": len(bad)}
     rep.obligation(f"corr:{name} (model == implementation on {len(cases)} requests)", not bad, str(bad[:2])[:400] if bad else "")
     return bad
+
+
+# ---------------------------------------------------------------- recogniser IR
+def load_ir():
+    import json
+
+    from harness.common import CACHE
+
+    return json.loads((CACHE / "parser_ir.json").read_text())
+
+
+def kept_tokens(src: str):
+    """Kept tokens of the real Tokenizer (only meaningful when no macro capture happens)."""
+    import io
+
+    from peg_parser.tokenize import Token, generate_tokens
+    from peg_parser.tokenizer import Tokenizer
+
+    tz = Tokenizer(generate_tokens(io.StringIO(src).readline))
+    out = []
+    while True:
+        t = tz.getnext()
+        out.append(t)
+        if t.type == Token.ENDMARKER:
+            return out
+
+
+def parse_request(ir, toks, rule="file", fuel=2000000):
+    strs = ir["strings"]
+    kws = set(ir["keywords"])
+    soft = set(ir["soft_keywords"])
+    names = [r["name"] for r in ir["rules"]]
+    fields = ["parse", str(names.index(rule)), str(fuel)]
+    for t in toks:
+        sid = strs.get(t.string, len(strs))
+        fields.append(f"{t.type.name}:{sid}:{1 if t.string in kws else 0}:{1 if t.string in soft else 0}")
+    return " ".join(fields)
+
+
+def impl_parse_observation(src: str, mode="exec"):
+    """What the real parser does, in the vocabulary of the recogniser model."""
+    import io
+
+    from peg_parser.parser import XonshParser
+    from peg_parser.tokenize import TokenError, generate_tokens
+    from peg_parser.tokenizer import Tokenizer
+
+    class Counting(Tokenizer):
+        def __init__(self, *a, **k):
+            super().__init__(*a, **k)
+            self.c = {"peeks": 0, "nexts": 0, "resets": 0}
+
+        def getnext(self):
+            self.c["nexts"] += 1
+            return super().getnext()
+
+        def peek(self):
+            self.c["peeks"] += 1
+            return super().peek()
+
+        def reset(self, index):
+            self.c["resets"] += 1
+            return super().reset(index)
+
+    tz = Counting(generate_tokens(io.StringIO(src).readline))
+    p = XonshParser(tz)
+    rule = "file" if mode == "exec" else "eval"
+    # first pass only (what decides acceptance), exactly as Parser.parse starts
+    p.call_invalid_rules = False
+    try:
+        res = getattr(p, rule)()
+    except SyntaxError as e:
+        return {"k": "raised", "msg": e.msg}
+    except TokenError:
+        return {"k": "tokerr"}
+    except RecursionError:
+        return {"k": "recursion"}
+    obs = {"k": "tree" if res else "fail", "pos": tz._index, "fetched": len(tz._tokens), **tz.c}
+    return obs
+
+
+def peg_cases(srcs, mode="exec"):
+    """(request, expected, source) for the first pass of every source (sources with macro triggers are skipped)."""
+    ir = load_ir()
+    out = []
+    for src in srcs:
+        if "!" in src.replace("!=", ""):
+            continue
+        try:
+            toks = kept_tokens(src)
+        except BaseException:  # noqa: BLE001
+            continue
+        obs = impl_parse_observation(src, mode)
+        if obs["k"] in ("recursion", "tokerr"):
+            continue
+        req = parse_request(ir, toks, "file" if mode == "exec" else "eval")
+        out.append((req, obs, src))
+    return out
+
+
+def run_peg_correspondence(rep, cases, name="recogniser-IR"):
+    """Model (first pass over the regenerated IR) vs implementation: outcome, end position, tokens fetched and the
+    three call counters must be EQUAL."""
+    if not DRIVER.exists():
+        rep.obligation(f"corr:{name}", False, "driver not built")
+        return []
+    answers = Driver().ask_many([c[0] for c in cases])
+    bad = []
+    stats = {"tree": 0, "fail": 0, "raised": 0, "undecided": 0}
+    for (req, obs, src), ans in zip(cases, answers):
+        head = ans.split(" ")[0]
+        kv = dict(x.split("=") for x in ans.split(" ") if "=" in x)
+        first = kv.get("first")
+        if first == "undecided":
+            stats["undecided"] += 1
+            continue
+        if first in ("fuel", "tokerr") or first is None:
+            bad.append({"source": src, "implementation": obs, "model": ans, "what": "model did not finish"})
+            continue
+        if obs["k"] == "raised" or first == "raised":
+            stats["raised"] += 1
+            if not (obs["k"] == "raised" and first == "raised") and kv.get("assumed") != "true":
+                bad.append({"source": src, "implementation": obs, "model": ans, "what": "first pass: only one side raised"})
+            continue
+        ok = (obs["k"] == "tree") == (first == "ok")
+        if ok:
+            for k in ("pos", "fetched", "peeks", "nexts", "resets"):
+                if int(kv[k]) != obs[k]:
+                    ok = False
+        if ok:
+            stats[obs["k"]] = stats.get(obs["k"], 0) + 1
+        else:
+            bad.append({"source": src, "implementation": obs, "model": ans})
+    rep.extra.setdefault("correspondence", {})[name] = {"requests": len(cases), "disagreements": len(bad), **stats}
+    rep.obligation(f"corr:{name} (first-pass outcome, end, tokens fetched, peek/getnext/reset counts equal on {len(cases)} inputs)", not bad, str(bad[:2])[:600] if bad else "")
+    return bad
